@@ -111,7 +111,7 @@ def run(ctx):
                         {"broken": "correspondence: HenryC19.henry_*/qst_* vs PoreProfile::henry_coefficients / ideal_gas_enthalpy_of_adsorption (gen/C19/%s)" % c["file"],
                          "input": pore_key(c), "failing_goals": bad, "impl": {"henry": c["henry"], "qst": c["qst"]},
                          "model_f64": {"henry": c["model_henry_f64"], "qst": c["model_qst_f64"]},
-                         "property": "at vanishing pressure N/p equals the Henry coefficient and its temperature dependence the ideal-gas enthalpy of adsorption"},
+                         "property_clause": "at vanishing pressure N/p equals the Henry coefficient and its temperature dependence the ideal-gas enthalpy of adsorption"},
                         found_input=True)
         # all segments of one molecule carry the same integral (every segment density integrates to the number of molecules)
         si, ci = c.get("segment_integrals") or [], c.get("component_index") or []
@@ -144,7 +144,7 @@ def run(ctx):
                 {t["what"]: (t["impl"], c["model_f64"].get(t["what"])) for t in bad}),
                 {"broken": "correspondence: HenryC19.ig_* vs DFTProfile::{moles,dn_dmu,dn_dp,dn_dt}, PoreProfile::{grand_potential,enthalpy_of_adsorption,henry_coefficients} (gen/C19/%s)" % c["file"],
                  "input": pore_key(c), "failing_goals": bad, "model_f64": c["model_f64"],
-                 "property": "for F = 0 the reported derivatives have closed forms (HenryC19.ig_dN_dmu, ig_dN_dp, ig_dN_dT, ig_enthalpy_of_adsorption)"},
+                 "property_clause": "for F = 0 the reported derivatives have closed forms (HenryC19.ig_dN_dmu, ig_dN_dp, ig_dN_dT, ig_enthalpy_of_adsorption)"},
                 found_input=True)
     if impl["ideal_cases"] and not impl["ideal_cases"][0].get("error"):
         c = impl["ideal_cases"][0]
@@ -176,7 +176,7 @@ def run(ctx):
                             % (c["name"], c["T"], c["rho_b"], c["potential"], what, r, s["at"][0], s["at"][1], num(s["Ax_at"]), num(s["rhs_at"]), tol),
                             {"broken": "correspondence: GibbsC19.lin_op / rhs_mu / rhs_p / code_rhs_t vs DFTProfile::%s (gen/C19/%s + whole-array check)" % (what, c["file"]),
                              "input": pore_key(c), "system": s, "failing_goals": tag_bad.get(s["system"], []),
-                             "property": "the derivative of a family of Euler-Lagrange solutions solves this system (GibbsC19.linearised_EL*, code_rhs_t_correct); "
+                             "property_clause": "the derivative of a family of Euler-Lagrange solutions solves this system (GibbsC19.linearised_EL*, code_rhs_t_correct); "
                                          "a returned field that does not is not the derivative of the adsorbed amounts"}, found_input=True)
         for sysname, bad in tag_bad.items():
             if sysname.startswith("dn_"):
